@@ -15,7 +15,7 @@ if [ ! -f _CoqProject ] || [ "$(cat _CoqProject)" != "$NEW" ] || [ ! -f Makefile
 fi
 T="${COQ_TIMEOUT:-1500}"
 if [ $# -eq 0 ]; then
-  timeout "$T" make -j"${COQ_JOBS:-16}" 2>&1
+  timeout "$T" make ${COQ_KEEP_GOING:+-k} -j"${COQ_JOBS:-16}" 2>&1
 else
   timeout "$T" make -j"${COQ_JOBS:-16}" "$@" 2>&1
 fi
